@@ -123,6 +123,28 @@ func devMain(args []string) int {
 			return 2
 		}
 		return 0
+	case "repotrace":
+		st, rs, err := repoTraceStage(10*time.Minute, 20)
+		if st != nil && rs != nil {
+			fmt.Println(repoTraceSummary(st, rs))
+			for _, e := range st.TLC.Errors {
+				fmt.Println("TLC:", e)
+			}
+			for _, e := range st.HarnessErr {
+				fmt.Println("HARNESS:", e)
+			}
+			for _, e := range st.Disagree {
+				fmt.Println("DISAGREE:", e)
+			}
+			for _, ex := range st.Examples {
+				fmt.Printf("--- %s op=%d: %s\n    %s\n", ex.Div.Kind, ex.Div.Op, ex.Div.Detail, ex.Rec.Cat.Note)
+			}
+		}
+		if err != nil {
+			fmt.Println("error:", err)
+			return 2
+		}
+		return 0
 	case "sig":
 		st, err := sigStage(10*time.Minute, 300)
 		if st != nil {
